@@ -17,6 +17,8 @@ Record case := mkcase {
   c_cpings : list Z;             (* ns: pings the client sent *)
   c_cclose : option Z;           (* ns: the client sent a close frame (and kept the TCP connection open) *)
   watch_until : Z;               (* ns: the socket was watched until then *)
+  c_last_from : Z;               (* ns: the partner last received a message FROM this client at (0 = never) *)
+  c_last_to : Z;                 (* ns: this client last received a message at (0 = never) *)
   obs_accepted : bool;           (* membership observed (traffic relayed / listed in the status report) *)
   obs_closed : option Z }.       (* ns: server-side close observed at *)
 
@@ -36,15 +38,36 @@ Fixpoint insert_ev (x : ev * Z) (l : list (ev * Z)) : list (ev * Z) :=
 Definition merge_in (e : ev) (times : list Z) (l : list (ev * Z)) : list (ev * Z) :=
   fold_right (fun d acc => insert_ev (e, d) acc) l times.
 
-Definition predicted_close (t f : Z) (c : case) (h : Z) : option Z :=
+(* everything the harness saw this client do and receive, as one event list in time order *)
+Definition timeline (t : Z) (c : case) (h : Z) : list (ev * Z) :=
   let n := rounds_until t h in
   let rounds := if c_pongs c then idle_rounds (t + ping_period) (repeat 0 n)
                 else pings_only (t + ping_period) n in
-  let evs := merge_in EDataOut (c_data c)
-               (merge_in EPongUnsolicited (c_upongs c)
-                  (merge_in EClientPing (c_cpings c)
-                     (match c_cclose c with Some x => insert_ev (EClientClose, x) rounds | None => rounds end))) in
-  closed_at (run (start t f) evs h).
+  merge_in EDataOut (c_data c)
+    (merge_in EPongUnsolicited (c_upongs c)
+       (merge_in EClientPing (c_cpings c)
+          (match c_cclose c with Some x => insert_ev (EClientClose, x) rounds | None => rounds end))).
+
+Definition predicted_close (t f : Z) (c : case) (h : Z) : option Z :=
+  closed_at (run (start t f) (timeline t c h) h).
+
+(* the behaviours the harness exercises on a client that answers pings (data both ways, unsolicited
+   pongs, pings of its own, empty messages, stalls) must satisfy the hypothesis of
+   C06_no_early_close, so that the theorem speaks about exactly these runs *)
+Definition timely_ok (c : case) : bool :=
+  let h := watch_until c + late_tol in
+  match c_pongs c, c_cclose c with
+  | true, None => timely (t_hi c + ping_period) None (timeline (t_hi c) c h ++ [(EDataIn, h)])
+  | _, _ => true
+  end.
+
+(* nothing is relayed to or from the connection after the model has it closed *)
+Definition relay_ok (c : case) (f_hi : Z) : bool :=
+  let h := watch_until c + late_tol in
+  match predicted_close (t_hi c) f_hi c h with
+  | Some b => (c_last_from c <=? b + late_tol) && (c_last_to c <=? b + late_tol)
+  | None => true
+  end.
 
 Definition close_ok (c : case) (f_lo f_hi : Z) : bool :=
   let h := watch_until c + late_tol in
@@ -61,8 +84,8 @@ Definition case_ok (c : case) : bool :=
   let tok := mktoken (c_nbf c) (c_exp c) in
   if negb (floor_s (t_lo c) =? floor_s (t_hi c)) then true
   else match ws_accept (t_lo c) tok (c_others c), ws_accept (t_hi c) tok (c_others c) with
-       | Refused _, Refused _ => negb (obs_accepted c)
-       | Accepted f_lo, Accepted f_hi => obs_accepted c && close_ok c f_lo f_hi
+       | Refused _, Refused _ => negb (obs_accepted c) && (c_last_from c =? 0) && (c_last_to c =? 0)
+       | Accepted f_lo, Accepted f_hi => obs_accepted c && close_ok c f_lo f_hi && relay_ok c f_hi && timely_ok c
        | _, _ => false
        end.
 
